@@ -315,137 +315,49 @@ theorem tobytes_eq (s : Store) : s.tobytes = toBytes s.bin := by
   | some n => simp [baToBytes_eq, pySlice_none_some]
 
 
-/-! ### the cut loop -/
+/-! ### the tofile loop -/
 
-/-- One chunk of a well-formed store: `take bits` of what is left. -/
-theorem cut_chunk (s : Store) (h : s.WF) (bits start : Nat) :
-    s.getsliceMode false (some (start : Int)) (some ((min (start + bits) s.buf.length : Nat) : Int))
-      = ⟨(s.buf.drop start).take bits, none, false⟩ := by
-  simp only [Store.getsliceMode, Bool.false_eq_true, if_false]
+/-- One chunk of a well-formed store: `take chunk` of what is left. -/
+theorem tofile_chunk (s : Store) (h : s.WF) (chunk start : Nat) (hpos : 0 < chunk) (hlt : start < s.buf.length) :
+    absoluteSlice s start (min (start + chunk) s.buf.length)
+      = ⟨(s.buf.drop start).take chunk, none, false⟩ := by
+  unfold absoluteSlice
+  have hne : ¬ (min (start + chunk) s.buf.length = start) := by omega
+  simp only [hne, if_false]
   rw [wf_getslice s h, pySlice_nat]
   congr 1
   rw [List.take_eq_take_iff]
   simp only [List.length_drop]
   omega
 
-theorem cutLoop_spec (s : Store) (h : s.WF) (bits : Nat) (hpos : 0 < bits) (fuel start : Nat)
-    (hs : start ≤ s.buf.length) (hf : s.buf.length - start < fuel) :
-    ((cutLoop false s bits s.buf.length fuel start).map Store.bin).flatten = s.buf.drop start ∧
-    (bits % 8 = 0 →
-      (cutLoop false s bits s.buf.length fuel start).flatMap Store.tobytes = toBytes (s.buf.drop start)) := by
+theorem tofileLoop_spec (s : Store) (h : s.WF) (chunk : Nat) (hpos : 0 < chunk) (h8 : chunk % 8 = 0)
+    (fuel start : Nat) (hf : s.buf.length - start ≤ fuel) :
+    tofileLoop s chunk fuel start = toBytes (s.buf.drop start) := by
   induction fuel generalizing start with
-  | zero => omega
+  | zero =>
+    rw [List.drop_of_length_le (by omega), toBytes_nil]; rfl
   | succ fuel ih =>
-    simp only [cutLoop]
-    rw [cut_chunk s h]
-    generalize hr : s.buf.drop start = r
-    have hrl : r.length = s.buf.length - start := by rw [← hr]; simp
-    simp only [Store.len]
-    by_cases h0 : (r.take bits).length = 0
-    · have : r = [] := by
-        have : r.length = 0 := by
-          rw [List.length_take] at h0; omega
-        exact List.eq_nil_of_length_eq_zero this
-      subst this
-      simp [toBytes_nil]
-    · simp only [h0, if_false]
-      by_cases hfull : (r.take bits).length = bits
-      · have hle : bits ≤ r.length := by rw [List.length_take] at hfull; omega
-        have hih := ih (start + bits) (by omega) (by omega)
-        have hd : s.buf.drop (start + bits) = r.drop bits := by rw [← hr, List.drop_drop]
-        rw [hd] at hih
-        simp only [hfull, ne_eq, not_true_eq_false, if_false, List.map_cons, List.flatten_cons,
-          List.flatMap_cons]
-        refine ⟨?_, ?_⟩
-        · rw [hih.1, bin_of_none _ rfl]
-          exact List.take_append_drop _ _
-        · intro h8
-          rw [hih.2 h8, tobytes_eq, bin_of_none _ rfl]
-          rw [← toBytes_append _ _ (by rw [hfull]; exact h8), List.take_append_drop]
-      · have hlt : r.length < bits := by rw [List.length_take] at hfull; omega
-        have htk : r.take bits = r := List.take_of_length_le (by omega)
-        simp only [hfull, ne_eq, not_false_eq_true, if_true, List.map_cons, List.map_nil,
-          List.flatten_cons, List.flatten_nil, List.flatMap_cons, List.flatMap_nil, List.append_nil]
-        refine ⟨?_, ?_⟩
-        · rw [bin_of_none _ rfl, htk]
-        · intro _
-          rw [tobytes_eq, bin_of_none _ rfl, htk]
+    simp only [tofileLoop]
+    rw [wf_len s h]
+    by_cases hlt : start < s.buf.length
+    · simp only [hlt, if_true]
+      rw [tofile_chunk s h chunk start hpos hlt, tobytes_eq, bin_of_none _ rfl, ih (start + chunk) (by omega)]
+      generalize hr : s.buf.drop start = r
+      have hd : s.buf.drop (start + chunk) = r.drop chunk := by rw [← hr, List.drop_drop]
+      rw [hd]
+      by_cases hle : chunk ≤ r.length
+      · rw [← toBytes_append _ _ (by rw [List.length_take]; omega), List.take_append_drop]
+      · rw [List.take_of_length_le (by omega), List.drop_of_length_le (by omega), toBytes_nil, List.append_nil]
+    · simp only [hlt, if_false]
+      rw [List.drop_of_length_le (by omega), toBytes_nil]
 
 theorem tofile_eq (chunk : Nat) (s : Store) (hwf : s.WF) (h8 : chunk % 8 = 0) (hpos : 0 < chunk) :
-    tofile false chunk s = .ok (toBytes s.bin) := by
-  unfold tofile cut
+    tofile chunk s = .ok (toBytes s.bin) := by
+  unfold tofile
   have hc : ¬ chunk = 0 := by omega
-  simp only [hc, if_false, Except.map]
-  rw [wf_len s hwf, wf_bin s hwf]
-  have := (cutLoop_spec s hwf chunk hpos (s.buf.length + 1) 0 (by omega) (by omega)).2 h8
-  rw [this]; simp
-
-theorem cut_flatten_eq (chunk : Nat) (s : Store) (hwf : s.WF) (hpos : 0 < chunk) (cs : List Store)
-    (h : cut false s chunk = .ok cs) : (cs.map Store.bin).flatten = s.bin := by
-  unfold cut at h
-  have hc : ¬ chunk = 0 := by omega
-  simp only [hc, if_false] at h
-  injection h with h
-  subst h
-  rw [wf_len s hwf, wf_bin s hwf]
-  have := (cutLoop_spec s hwf chunk hpos (s.buf.length + 1) 0 (by omega) (by omega)).1
-  simpa using this
-
-/-- `getslice_lsb0(a, b)` of a well-formed store, for positions inside it: the same stretch counted from the end. -/
-theorem getsliceLsb0_nat (s : Store) (h : s.WF) (a b : Nat) (hab : a ≤ b) (hb : b ≤ s.buf.length) :
-    s.getsliceLsb0 (some (a : Int)) (some (b : Int))
-      = ⟨(s.buf.drop (s.buf.length - b)).take (b - a), none, false⟩ := by
-  unfold Store.getsliceLsb0
-  rw [wf_len s h, sliceIndices_one]
-  simp only [clamp1]
-  have ha' : ¬ ((a : Int) < 0) := by omega
-  have hb' : ¬ ((b : Int) < 0) := by omega
-  simp only [ha', hb', if_false]
-  have e1 : (s.buf.length : Int) - min (b : Int) (s.buf.length : Int) = ((s.buf.length - b : Nat) : Int) := by omega
-  have e2 : (s.buf.length : Int) - min (a : Int) (s.buf.length : Int) = ((s.buf.length - a : Nat) : Int) := by omega
-  rw [e1, e2, pySlice_nat]
-  congr 2
-  omega
-
-/-- Under lsb0 too, the loop stops once `start_` has reached the end. -/
-theorem cutLoop_lsb0_end (s : Store) (hwf : s.WF) (bits fuel : Nat) :
-    cutLoop true s bits s.buf.length fuel s.buf.length = [] := by
-  cases fuel with
-  | zero => rfl
-  | succ fuel =>
-    have hm : min (s.buf.length + bits) s.buf.length = s.buf.length := by omega
-    simp only [cutLoop, Store.getsliceMode, if_true]
-    rw [hm, getsliceLsb0_nat s hwf s.buf.length s.buf.length (by omega) (by omega)]
-    simp [Store.len]
-
-/-- Under lsb0 a bitstring that fits in one chunk is still written whole. -/
-theorem tofile_lsb0_single (chunk : Nat) (s : Store) (hwf : s.WF) (hpos : 0 < chunk)
-    (hfit : s.bin.length ≤ chunk) : tofile true chunk s = .ok (toBytes s.bin) := by
-  rw [wf_bin s hwf] at hfit ⊢
-  unfold tofile cut
-  have hc : ¬ chunk = 0 := by omega
-  simp only [hc, if_false, Except.map]
-  rw [wf_len s hwf]
-  have hmin : min (0 + chunk) s.buf.length = s.buf.length := by omega
-  have first : s.getsliceMode true (some ((0 : Nat) : Int)) (some ((min (0 + chunk) s.buf.length : Nat) : Int))
-      = ⟨s.buf, none, false⟩ := by
-    simp only [Store.getsliceMode, if_true]
-    rw [hmin, getsliceLsb0_nat s hwf 0 s.buf.length (by omega) (by omega)]
-    simp
-  simp only [cutLoop]
-  rw [first]
-  simp only [Store.len]
-  by_cases h0 : s.buf.length = 0
-  · have : s.buf = [] := List.eq_nil_of_length_eq_zero h0
-    simp [this, toBytes_nil]
-  · simp only [h0, if_false]
-    by_cases hfull : s.buf.length = chunk
-    · subst hfull
-      have hend := cutLoop_lsb0_end s hwf s.buf.length s.buf.length
-      simp only [ne_eq, not_true_eq_false, if_false, Nat.zero_add]
-      rw [hend]
-      simp [tobytes_eq, bin_of_none]
-    · simp [hfull, tobytes_eq, bin_of_none]
+  simp only [hc, if_false]
+  rw [wf_len s hwf, wf_bin s hwf, tofileLoop_spec s hwf chunk hpos h8 s.buf.length 0 (by omega)]
+  simp
 
 /-! ### windows -/
 
@@ -787,7 +699,7 @@ theorem valid_toBytes (l : Bits) :
   omega
 
 theorem roundtrip_eq (cls : Cls) (k : Src) (chunk : Nat) (l : Bits) (h8 : chunk % 8 = 0) (hpos : 0 < chunk) :
-    (tofile false chunk (Store.mem l) >>= fun w =>
+    (tofile chunk (Store.mem l) >>= fun w =>
       (construct cls k w (some (l.length : Int)) none).map Store.bin) = .ok l := by
   rw [tofile_eq chunk _ (wf_mem l) h8 hpos, ok_bind, bin_of_none _ rfl]
   show (construct cls k (toBytes l) (some (l.length : Int)) none).map Store.bin = .ok l
@@ -797,7 +709,7 @@ theorem arrayTobytes_eq' (data : Bits) : arrayTobytes data = toBytes data := by
   unfold arrayTobytes; rw [tobytes_eq, bin_of_none _ rfl]; rfl
 
 theorem arrayTofile_eq' (chunk : Nat) (data : Bits) (h8 : chunk % 8 = 0) (hpos : 0 < chunk) :
-    arrayTofile false chunk data = .ok (toBytes data) := by
+    arrayTofile chunk data = .ok (toBytes data) := by
   unfold arrayTofile; rw [tofile_eq chunk _ (wf_mem data) h8 hpos, bin_of_none _ rfl]; rfl
 
 /-- What `Bits(f)` gives inside `Array.fromfile`. -/
@@ -855,7 +767,7 @@ theorem arrayFromfile_short' (data : Bits) (isz : Nat) (file : Bytes) (fk : FKin
 
 theorem array_roundtrip_eq (data : Bits) (isz chunk : Nat) (fk : FKind) (h8 : chunk % 8 = 0) (hpos : 0 < chunk)
     (hisz : 0 < isz) :
-    (arrayTofile false chunk data >>= fun w => arrayFromfile [] isz w fk none) =
+    (arrayTofile chunk data >>= fun w => arrayFromfile [] isz w fk none) =
       .ok ((padded data).take ((padded data).length / isz * isz)) := by
   rw [arrayTofile_eq' chunk data h8 hpos, ok_bind,
     arrayFromfile_eq [] isz (toBytes data) fk none hisz (by simp) (by intro k hk; cases hk)]
